@@ -1344,8 +1344,7 @@ Definition case_ok (k : case) : bool :=
       && text_tie_ok t                   (* Model_RegexText reads every class / literal run of the tree back from its Value *)
       && match k_tree2 k with Some t2 => text_tie_ok t2 | None => true end
       && String.eqb (simplify1 t) (k_c1 k)                              (* pass 1 as used for k_tree2 *)
-      && String.eqb (pr_list (fst (walk_a true t))) (simp_text t)            (* tree version prints the text version *)
-      && Nat.eqb (snd (walk_a true t)) (simp_score t)
+      (* that the tree version of the walker prints the text version is a theorem: C11_walk_text_is_print_of_tree *)
       && ostr_eqb (simplify2 (k_pat k) t (fun s => if String.eqb s (k_c1 k) then k_tree2 k else None)) (k_obs k)
       (* the certificate used with C11_same_meaning_sound: pattern tree vs tree of the final rewrite *)
       && Bool.eqb (match k_tree3 k with Some t3 => same_meaning t t3 | None => false end) (k_cert k)
